@@ -100,7 +100,8 @@ def mon_roundtrip(case):
                 size = ws[3]
                 posted[idref] = "empty" if size == "0" else "bytes:" + (kvtok(ws, "h") or "?")
             if idref and e.startswith("rt.response=413"):
-                posted[idref] = "errjson:Function.ResponseSizeTooLarge"
+                # the caller's error must state both sizes: the response's and the limit (6 MiB + 100)
+                posted[idref] = "errjson:Function.ResponseSizeTooLarge:%s:%d" % (ws[3], 6 * 2 ** 20 + 100)
             if idref and e.startswith("rt.error=202"):
                 posted[idref] = "errjson:" + ws[3]
             m = re.match(r"caller(\d+) done err=ok body=(\S+)", e)
